@@ -10,6 +10,7 @@ mod seglog;
 mod iohook;
 mod ovl;
 mod stress;
+mod triepos;
 mod locksdemo;
 mod util;
 mod wal;
@@ -57,6 +58,7 @@ fn main() {
         "bitops" => bitops::run(seed, cases, &mut sink),
         "bitops-node" => bitops::run_nodes(seed, cases, &mut sink),
         "seglog" => seglog::run(seed, cases, &mut sink),
+        "triepos" => triepos::run(seed, cases, &mut sink),
         "core-pp" => core_pp::run(seed, cases, &mut sink),
         "core-mp" => core_mp::run(seed, cases, &mut sink),
         "core-mp-corpus" => {
